@@ -6,6 +6,7 @@ import (
 	"github.com/cloudwego/dynamicgo/conv"
 	vrt "github.com/cloudwego/dynamicgo/internal/zzverif"
 	"github.com/cloudwego/dynamicgo/thrift"
+	"github.com/cloudwego/dynamicgo/thrift/annotation"
 )
 
 func init() {
@@ -305,4 +306,48 @@ func VerifC03_Field() {
 			}
 		}
 	}
+}
+
+func init() { vrt.Register("VerifC03_ValueMappingOff", VerifC03_ValueMappingOff) }
+
+// VerifC03_ValueMappingOff: struct S2{1: i64 id (api.js_conv); 2: Inner in; 3: list<Inner> l}, Inner{1: i64 iid
+// (api.js_conv)} converted with EnableValueMapping = false: annotated fields are emitted exactly like
+// un-annotated ones (plain numbers), at the root, in a nested struct and in list elements.
+func VerifC03_ValueMappingOff() {
+	inner := thrift.VerifNewStruct("Inner", 2)
+	fi := thrift.VerifAddField(inner, thrift.VField{ID: 1, Name: "iid", Type: thrift.VerifBasic(thrift.I64), Req: 2}, thrift.Options{})
+	thrift.VerifSetValueMapping(fi, annotation.VerifJSConv(), 1)
+	thrift.VerifBuild(inner)
+	st := thrift.VerifNewStruct("S2", 4)
+	f1 := thrift.VerifAddField(st, thrift.VField{ID: 1, Name: "id", Type: thrift.VerifBasic(thrift.I64), Req: 2}, thrift.Options{})
+	thrift.VerifSetValueMapping(f1, annotation.VerifJSConv(), 1)
+	thrift.VerifAddField(st, thrift.VField{ID: 2, Name: "in", Type: inner, Req: 2}, thrift.Options{})
+	thrift.VerifAddField(st, thrift.VField{ID: 3, Name: "l", Type: thrift.VerifList(inner), Req: 2}, thrift.Options{})
+	thrift.VerifBuild(st)
+	v1, v2, v3 := int64(vrt.U64()), int64(vrt.U64()), int64(vrt.U64())
+	var in []byte
+	in = vrt.PutBE64(vrt.PutField(in, vrt.TI64, 1), v1)
+	in = vrt.PutField(in, vrt.TSTRUCT, 2)
+	in = append(vrt.PutBE64(vrt.PutField(in, vrt.TI64, 1), v2), 0)
+	in = vrt.PutListHdr(vrt.PutField(in, vrt.TLIST, 3), vrt.TSTRUCT, 1)
+	in = append(vrt.PutBE64(vrt.PutField(in, vrt.TI64, 1), v3), 0)
+	in = append(in, 0)
+	vrt.GhostReset()
+	cv := NewBinaryConv(conv.Options{EnableValueMapping: false})
+	out, err := cv.Do(context.Background(), st, in)
+	vrt.Assert(err == nil, "C03.valuemapping-off.noerror")
+	if err != nil {
+		return
+	}
+	vrt.Reach("converted")
+	root, ok := vrt.JParse(out)
+	vrt.Assert(ok && root.Kind == vrt.JObject && len(root.Keys) == 3, "C03.valuemapping-off.valid-json")
+	if !ok || root.Kind != vrt.JObject || len(root.Keys) != 3 {
+		return
+	}
+	vrt.Assert(verifIntIs(out, root.Elems[0], v1), "C03.valuemapping-off.root.plain-number")
+	n := root.Elems[1]
+	vrt.Assert(n.Kind == vrt.JObject && len(n.Elems) == 1 && verifIntIs(out, n.Elems[0], v2), "C03.valuemapping-off.nested.plain-number")
+	l := root.Elems[2]
+	vrt.Assert(l.Kind == vrt.JArray && len(l.Elems) == 1 && l.Elems[0].Kind == vrt.JObject && len(l.Elems[0].Elems) == 1 && verifIntIs(out, l.Elems[0].Elems[0], v3), "C03.valuemapping-off.list-element.plain-number")
 }
